@@ -11,11 +11,14 @@
 (* that parses to the same tree, keeps the comments, is a fixed point of the   *)
 (* formatter, and compiles to the same module.                                 *)
 EXTENDS Integers, Sequences, FiniteSets, TLC, Json
-CONSTANTS Emit, MaxPerturbed, Constructs
-B == "|"     \* marks a statement boundary inside a construct
+CONSTANTS Emit, MaxPerturbed, Constructs,
+          ExtraBreakFills,   \* further line-comment styles of the language ("hc": #..., "zc": 注: ...)
+          StrictBounds       \* TRUE: every statement boundary needs a line break (block headers ending in ":" of .wz)
+B == "<B>"     \* marks a statement boundary inside a construct
 
 Keywords == {"func", "if", "else", "for", "switch", "case", "default", "type", "struct", "interface", "map", "range", "defer", "import", "const",
-             "global", "var"}
+             "global", "var",
+             "函数", "如果", "或者", "否则", "循环", "找辙", "有辙", "没辙", "结构", "全局", "引入", "常量"}
 Operators == {"+", "-", "*", "/", "%", "&", "|", "^", "<<", ">>", "&^", "&&", "||", "!", "==", "!=", "<", "<=", ">", ">=", "=", ":=", "+=", "=>", ".", ":", "..."}
 Openers == {"(", "[", "{"}
 Closers == {")", "]", "}"}
@@ -30,7 +33,7 @@ Toks(c) == IF c = <<>> THEN <<>> ELSE IF Head(c) = B THEN Toks(Tail(c)) ELSE <<H
 RECURSIVE Bounds(_, _)
 Bounds(c, n) == IF c = <<>> THEN {} ELSE IF Head(c) = B THEN {n} \cup Bounds(Tail(c), n) ELSE Bounds(Tail(c), n + 1)
 
-BreakFills == {"nl", "blank", "lc", "bcnl"}          \* contain a line break
+BreakFills == {"nl", "blank", "lc", "bcnl"} \cup ExtraBreakFills         \* contain a line break
 SpaceFills == {"sp", "sp2", "tab", "bcsp"}
 TightFills == {"none", "bc"}
 SemiFills  == {"semi", "seminl"}
@@ -39,9 +42,10 @@ Fills == BreakFills \cup SpaceFills \cup TightFills \cup SemiFills
 \* gap i lies after token i (gap 0: before the first token)
 Legal(c, i, f) ==
   LET t == Toks(c) IN
-  IF i = 0 THEN f \in {"nl", "lc", "bcnl", "blank"}
-  ELSE IF i = Len(t) THEN f \in {"nl", "blank", "lc", "eof"}
+  IF i = 0 THEN f \in {"nl", "lc", "bcnl", "blank"} \cup ExtraBreakFills
+  ELSE IF i = Len(t) THEN f \in {"nl", "blank", "lc", "eof"} \cup ExtraBreakFills
   ELSE IF i \in Bounds(c, 0) /\ Asi(t[i]) THEN f \in BreakFills \cup SemiFills
+  ELSE IF i \in Bounds(c, 0) /\ StrictBounds THEN f \in BreakFills
   ELSE \/ f \in SpaceFills
        \/ f \in BreakFills /\ ~Asi(t[i])
        \/ f = "none" /\ CanAbut(t[i], t[i + 1])
@@ -54,13 +58,12 @@ Pieces(c, lay) == LET t == Toks(c) IN
                                  ELSE LET g == (k - 1) \div 2 IN IF g \in DOMAIN lay THEN lay[g] ELSE Default(c, g)]
 
 VARIABLES cid, lay, done
+GapSets(n) == {{}} \cup {{g} : g \in 0..n} \cup (IF MaxPerturbed >= 2 THEN {{g, h} : g, h \in 0..n} ELSE {})
 Init == /\ cid \in DOMAIN Constructs /\ done = FALSE
-        /\ \E gs \in SUBSET (0..Len(Toks(Constructs[cid]))) :
-             /\ Cardinality(gs) <= MaxPerturbed
-             /\ lay \in [gs -> Fills \cup {"eof"}]
+        /\ \E gs \in GapSets(Len(Toks(Constructs[cid]))) : lay \in [gs -> Fills \cup {"eof"}]
         /\ \A g \in DOMAIN lay : Legal(Constructs[cid], g, lay[g]) /\ lay[g] # Default(Constructs[cid], g)
 Next == /\ ~done /\ done' = TRUE /\ UNCHANGED <<cid, lay>>
-        /\ (Emit => PrintT(<<"T", ToJson([c |-> cid, gaps |-> [g \in DOMAIN lay |-> lay[g]], pieces |-> Pieces(Constructs[cid], lay)])>>))
+        /\ (Emit => PrintT(<<"T", ToJson([c |-> cid, gaps |-> {[g |-> g, f |-> lay[g]] : g \in DOMAIN lay}, pieces |-> Pieces(Constructs[cid], lay)])>>))
 
 \* sanity of the layout rules themselves
 ModelOK == /\ Asi("x") /\ Asi(")") /\ Asi("return") /\ ~Asi("{") /\ ~Asi(",") /\ ~Asi("else")
